@@ -444,7 +444,7 @@ impl Property for C07 {
         ]
     }
     fn pbt(&self, tier: Tier) -> PbtCfg {
-        PbtCfg { cases: tier.pick(150_000, 5_000_000), max_len: tier.pick(600, 1800), shrink_ms: 120_000 }
+        PbtCfg { cases: tier.pick(150_000, 3_000_000), max_len: tier.pick(600, 1800), shrink_ms: 120_000 }
     }
     fn required_labels(&self) -> Vec<&'static str> {
         vec!["keyed_path", "at_unknown", "at_pending", "at_connected", "at_client", "token_case", "token_parsed"]
